@@ -21,7 +21,7 @@ def sh(cmd, cwd=wt, timeout=3000, extra=None):
 demos = [f for f in os.listdir(sd) if f.endswith(".rs")]
 scripts = [f for f in os.listdir(sd) if f.endswith(".sh")]
 res = {"worktree": wt, "variant": var}
-sh("git checkout -q -- . && git clean -fdq -e SEEDED -e SEEDED2 -e target")
+sh("git checkout -q -- . && git clean -fdq -e 'SEEDED*' -e target")
 def place_demos():
     for d in demos:
         crate = "tackler-core"
@@ -72,7 +72,7 @@ for c in checks:
     m = re.search(r"replay=(\S+)", "\n".join(lines))
     if m and os.path.exists(m.group(1)):
         res["checks"][c]["first_replay_what"] = json.load(open(m.group(1))).get("what")
-sh("git checkout -q -- . && git clean -fdq -e SEEDED -e SEEDED2 -e target")
+sh("git checkout -q -- . && git clean -fdq -e 'SEEDED*' -e target")
 out = os.path.join(V, "seeded", "%s-%s%s" % (prop, os.environ.get("SEEDED_TAG", ""), var))
 os.makedirs(out, exist_ok=True)
 shutil.copy(os.path.join(sd, "patch.diff"), out)
